@@ -3,6 +3,7 @@ CONSTANTS
   MaxOps = 3
   MaxObjs = 3
   MaxCreate = 1
+  Focus = "all"
   World = 8
   EmitOn = TRUE
 CHECK_DEADLOCK FALSE
